@@ -12,6 +12,7 @@ import (
 	"sort"
 	"strconv"
 	"strings"
+	"sync"
 	"time"
 )
 
@@ -40,6 +41,7 @@ type Ctx struct {
 	States    int64
 	Trans     int64
 	Traces    int64
+	mu        sync.Mutex
 }
 
 type Violation struct {
@@ -87,7 +89,9 @@ func (c *Ctx) scratchDir() string {
 	if err != nil {
 		c.die("mktemp: %v", err)
 	}
+	c.mu.Lock()
 	c.scratch = append(c.scratch, d)
+	c.mu.Unlock()
 	return d
 }
 
